@@ -95,6 +95,9 @@ func (d *Driver) sendRPC(
 	select {
 	case err = <-d.errs:
 		return nil, err
+	case <-d.done:
+		// the driver was closed while we were waiting, nothing will ever file a reply for us
+		return nil, fmt.Errorf("%w: connection closed while waiting for reply", util.ErrConnectionError)
 	case <-timer.C:
 		d.Logger.Critical("channel timeout sending input to device")
 
